@@ -39,8 +39,12 @@ def build_all(hs):
     core.parallel(lambda h: h.build(), hs)
 
 
+import threading  # noqa: E402
+
+
 def _run_shard(args):
-    h, i, tier, seed, known, workdir = args
+    h, i, tier, seed, known, workdir = args[:6]
+    cancel = args[6] if len(args) > 6 else None
     out = os.path.join(workdir, f"{h.name}.{i}.stats.json")
     rep = os.path.join(workdir, f"{h.name}.{i}.replay.json")
     for p in (out, rep):
@@ -48,7 +52,12 @@ def _run_shard(args):
             os.remove(p)
     env = {"VERIF_TIER": tier, "VERIF_SEED": str(seed), "VERIF_SHARD": f"{i}/{h.shards}", "VERIF_KNOWN": ";".join(known)}
     env.update(h.env)
-    rc, log, wall = core.run([h.bin, "--out", out, "--replay-out", rep], env=env, timeout=tier_timeout(tier))
+    if cancel is not None:
+        rc, log, wall = core.run_cancellable([h.bin, "--out", out, "--replay-out", rep], env, tier_timeout(tier), cancel)
+        if rc not in (0, "cancelled"):
+            cancel.set()
+    else:
+        rc, log, wall = core.run([h.bin, "--out", out, "--replay-out", rep], env=env, timeout=tier_timeout(tier))
     stats = None
     if os.path.exists(out):
         try:
@@ -178,12 +187,16 @@ def check(pid, tier, seed, hs, level, rule, assumptions=(), extra_cov=None, min_
     if bad:
         core.write_evidence(pid, tier, seed, level, {"evaluations": nreg, "distinct_nontrivial": 0, "rule": rule, "samples": [{"regression_tier": "failed"}]}, time.time() - t0, violations=1, assumptions=assumptions)
         return 1
-    jobs = [(h, i, tier, seed, known, workdir) for h in hs for i in range(h.shards)]
+    cancel = threading.Event()
+    jobs = [(h, i, tier, seed, known, workdir, cancel) for h in hs for i in range(h.shards)]
     results = core.parallel(_run_shard, jobs)
     m = merge_stats(results)
     viol = 0
     for r in results:
         if r["rc"] == 0:
+            continue
+        if r["rc"] == "cancelled":
+            m["notes"].append(f"{r['h'].name} shard {r['shard']}: stopped after another shard had reported a violation")
             continue
         if r["rc"] == 3 or r["rc"] == "timeout":
             if r["rc"] == "timeout":
